@@ -8,6 +8,7 @@ from __future__ import annotations
 from typing import TYPE_CHECKING, Generator, cast
 
 from exabgp.bgp.message import EOR, Message, Update
+from exabgp.bgp.message.update.collection import UpdateCollection
 from exabgp.environment import getenv
 from exabgp.logger import lazyformat, lazymsg, log
 from exabgp.reactor.peer.handlers.base import MessageHandler
@@ -76,6 +77,11 @@ class UpdateHandler(MessageHandler):
         if isinstance(message, EOR):
             # End-of-RIB shares the UPDATE type but carries no route (and has no parsed collection)
             return
+        if isinstance(message, UpdateCollection):
+            # The placeholder Protocol.read_message returns, without decoding, when nothing reads routes
+            # (adj-rib-in false and no API or log wants them). It has no .data: the first UPDATE of such
+            # a session raised AttributeError here and the session was reset without a NOTIFICATION.
+            return
         update = cast(Update, message)
         parsed = update.data  # Already parsed by unpack_message
         self._number += 1
@@ -116,6 +122,11 @@ class UpdateHandler(MessageHandler):
         """
         if isinstance(message, EOR):
             # End-of-RIB shares the UPDATE type but carries no route (and has no parsed collection)
+            return
+        if isinstance(message, UpdateCollection):
+            # The placeholder Protocol.read_message returns, without decoding, when nothing reads routes
+            # (adj-rib-in false and no API or log wants them). It has no .data: the first UPDATE of such
+            # a session raised AttributeError here and the session was reset without a NOTIFICATION.
             return
         update = cast(Update, message)
         parsed = update.data  # Already parsed by unpack_message
